@@ -122,7 +122,7 @@ def model_check(ctx, cfgs):
 
 def judge(ctx, step, records, per_sig=6):
     """Trace_PanicFlow over the records, sharded and in parallel.  Returns (bad entries, stats)."""
-    size = min(SHARD, max(400, -(-len(records) // 8)))
+    size = min(SHARD, max(2000, -(-len(records) // 8)))
     shards = [records[i:i + size] for i in range(0, max(len(records), 1), size)]
 
     def one(k):
